@@ -246,10 +246,28 @@ pub fn run_dispatch<N: AsRef<[Link]>>(
                 debug_assert!(train_idx != train_idx_curr);
             });
         }
+
+        #[cfg(feature = "verif_hooks")]
+        crate::verif_hooks::observe_dispatch(&crate::verif_hooks::DispatchSnapshot {
+            phase: crate::verif_hooks::DispatchPhase::AfterMove,
+            train_idx: train_idx_curr.idx(),
+            link_disp_auths: &link_disp_auths,
+            links_blocked: &links_blocked,
+            train_disps: &train_disps,
+        });
     }
     if !train_idxs_blocked.is_empty() {
         bail!("The following trains got stuck! {:?}", train_idxs_blocked);
     }
+
+    #[cfg(feature = "verif_hooks")]
+    crate::verif_hooks::observe_dispatch(&crate::verif_hooks::DispatchSnapshot {
+        phase: crate::verif_hooks::DispatchPhase::Final,
+        train_idx: 0,
+        link_disp_auths: &link_disp_auths,
+        links_blocked: &links_blocked,
+        train_disps: &train_disps,
+    });
 
     Ok(train_disps[1..]
         .iter()
